@@ -2,6 +2,8 @@
 # usage: verify_seed.sh <ID> [<seed dir>]   — confirms a seeded change in the scratch worktree /tmp/vseed:
 # applies, builds with and without the feature, the 71 tests pass, the demonstration fails with the
 # change and passes without it. Prints a summary; exit 0 if all of that holds.
+# (create the scratch worktree first: git -C /repo worktree add --detach /tmp/vseed HEAD; remove it when done:
+#  git -C /repo worktree remove --force /tmp/vseed)
 id="$1"; src="${2:-/tmp/seed/$id/seed_out}"
 cd /tmp/vseed || exit 2
 git checkout -q -- . ; rm -f tests/seed_demo*.rs
